@@ -2,7 +2,7 @@
 //! Fault enumeration over emitted files: every truncation, every bit flip, every burst (<= L bits exhaustively, pattern
 //! families up to 32), and structural mutants (every byte offset x width x boundary value) with the CRC trailer recomputed.
 use super::*;
-use crate::canon::canon;
+use crate::canon::{canon, Canon};
 use crate::pool::*;
 use crate::report::Report;
 use crate::subject::*;
@@ -35,6 +35,26 @@ pub fn base_programs(tier: Tier) -> Vec<(&'static str, String)> {
     for k in ["u16", "u32", "u128", "i8", "i16", "i32", "i128"] { v.push(("kind-matrix", format!("x<[{}]> := [1 2 3]", k))); }
     for op in ["-", "*", "/", "^", "%"] { v.push(("binop", format!("a := [6 8; 9 4]\nb := a {} 2", op))); }
   }
+  v
+}
+
+/// literals whose constant has elements of varying encoded size at every position (strings of length 0..4 incl. multi-byte ones, in
+/// matrices of every shape up to 2x3 / 3x2, sets, tuples of mixed kinds, records, tables, maps), plus fixed-size element kinds
+pub fn literal_corpus() -> Vec<String> {
+  let strs = ["\"\"", "\"a\"", "\"bc\"", "\"def\"", "\"é\"", "\"日本\"", "\"ghij\""];
+  let mut v: Vec<String> = vec![];
+  for (r, c) in [(1usize, 2usize), (1, 3), (2, 1), (3, 1), (2, 2), (2, 3), (3, 2), (1, 4)] {
+    for rot in 0..strs.len() {
+      let vals: Vec<String> = (0..r * c).map(|i| strs[(rot + i * 2) % strs.len()].to_string()).collect();
+      v.push(super::c01::matrix_literal(&vals, r, c));
+    }
+  }
+  for rot in 0..strs.len() { v.push(format!("{{{}, {}, {}}}", strs[rot], strs[(rot + 1) % strs.len()], strs[(rot + 3) % strs.len()])); }
+  // (no tuples: compile() of a tuple constant never returns - a known finding owned by C06)
+  for rot in 0..strs.len() { v.push(format!("{{a: {}, b: 2, c: {}}}", strs[rot], strs[(rot + 4) % strs.len()])); }
+  for rot in 0..strs.len() { v.push(format!("| n<string> v<f64> | {} 1 | {} 2 | {} 3 |", strs[rot], strs[(rot + 1) % strs.len()], strs[(rot + 5) % strs.len()])); }
+  for k in ["u8", "u16", "u32", "u64", "i8", "i16", "i32", "i64", "f32"] { v.push(format!("[1{k} 2{k} 3{k}]", k = k)); v.push(format!("[1{k} 2{k}; 3{k} 4{k}]", k = k)); v.push(format!("{{1{k}, 2{k}}}", k = k)); }
+  for l in ["[true false true]", "[1/2 1/3 3/4]", "[1+2i 3-1i]", "{1/2, 1/3}", "{1+2i, 3-4i}", "{true, false}", "{{1,2},{3,4}}", "[1.5 2.5; 3.5 4.5; 5.5 6.5]", "| a<r64> | 1/2 | 1/3 |", "| a<bool> b<u8> | true 1 | false 2 |"] { v.push(l.to_string()); }
   v
 }
 
@@ -188,6 +208,31 @@ impl UnitRunner for C07 {
     let name = self.progs.get(b).map(|p| p.0).unwrap_or("?");
     let src = self.progs.get(b).map(|p| p.1.clone()).unwrap_or_default();
     match mode {
+      "corpus" => {
+        // round trip (no mutation) of a larger corpus of emitted files: constants of every container shape with elements of varying
+        // encoded size at every position; the decoded constants must contain the value the program defined
+        let corpus = literal_corpus();
+        for (li, lit) in corpus.iter().enumerate() {
+          if li as u64 % 8 != unit { continue; }
+          let src = format!("x := {}", lit);
+          let Some(tree) = parse_cached(&src) else { out.count("corpus_unparsable"); continue; };
+          let mut i = Interpreter::new(0);
+          let want = match catch_unwind(AssertUnwindSafe(|| i.interpret(&tree))) { Ok(Ok(v)) => canon(&v), _ => { out.count("corpus_not_interpretable"); continue; } };
+          let bytes = match catch_unwind(AssertUnwindSafe(|| i.compile())) { Ok(Ok(b)) => b, Ok(Err(_)) => { out.count("corpus_not_compilable"); out.set("corpus_not_compilable", lit); continue; } Err(e) => { out.fail("C07|panic|compile".into(), src.clone(), panic_msg(e)); continue; } };
+          out.evaluations += 1; out.nontrivial += 1;
+          let case = format!("{} ({} bytes)", src, bytes.len());
+          let before = out.failures.len();
+          check_emitted(&bytes, &case, ":corpus", out);
+          if out.failures.len() > before { continue; }
+          if let Ok(Ok(p)) = catch_unwind(AssertUnwindSafe(|| ParsedProgram::from_bytes(&bytes))) {
+            if let Ok(Ok(vals)) = catch_unwind(AssertUnwindSafe(|| p.decode_const_entries())) {
+              let decoded: Vec<Canon> = vals.iter().map(canon).collect();
+              if decoded.iter().any(|c| c == &want) { out.count("corpus_constant_found"); }
+              else { out.fail("C07|roundtrip-differs|decoded-constants:corpus".into(), case, format!("the program defines {}, the decoded constants are {:?}", want.short(), decoded.iter().map(|c| c.short()).collect::<Vec<_>>())); }
+            }
+          }
+        }
+      }
       "roundtrip" => {
         out.evaluations += 1;
         let bytes = match self.emit(b) { Some(x) => x, None => { out.count("base_program_not_compilable"); out.set("not_compilable", name); return; } };
@@ -360,6 +405,7 @@ impl Check for C07 {
     // hostile constant payloads: every fill byte for every constant of every file
     for b in &files { jobs.extend(range_jobs(&format!("payload {}", b), 256, 16)); }
     jobs.push(Job { payload: "tiny 0".into(), lo: 0, hi: 1 });
+    jobs.extend(range_jobs("corpus 0", 8, 1));
     let progs = self.progs.clone();
     rep.describe = Some(Box::new(move |p, u| {
       let mut it = p.split(' ');
